@@ -2,6 +2,8 @@ use ropey::Rope;
 
 use syntax::parser::TextSize;
 
+/// Maps between byte offsets and (line, UTF-16 column) positions.
+/// Line breaks are LF, CR and CRLF.
 #[derive(Debug, Eq, PartialEq)]
 pub struct LineIndex {
     rope: Rope,
@@ -14,12 +16,59 @@ impl LineIndex {
         }
     }
 
-    pub fn pos_to_line(&self, pos: TextSize) -> usize {
-        self.rope.char_to_line(pos.into())
+    fn clamp_to_char_boundary(&self, pos: TextSize) -> usize {
+        let byte = usize::from(pos).min(self.rope.len_bytes());
+        self.rope.char_to_byte(self.rope.byte_to_char(byte))
     }
 
+    /// The zero-based line that contains the byte offset `pos`.
+    pub fn pos_to_line(&self, pos: TextSize) -> usize {
+        self.rope.byte_to_line(self.clamp_to_char_boundary(pos))
+    }
+
+    /// The byte offset of the first character of `line` (the end of the text if there is no such line).
     pub fn line_to_pos(&self, line: usize) -> TextSize {
-        let pos = self.rope.line_to_char(line);
-        TextSize::try_from(pos).expect("line index out of bounds")
+        let byte = if line < self.rope.len_lines() {
+            self.rope.line_to_byte(line)
+        } else {
+            self.rope.len_bytes()
+        };
+        TextSize::try_from(byte).expect("line index out of bounds")
+    }
+
+    /// The column of the byte offset `pos` within its line, in UTF-16 code units.
+    pub fn pos_to_utf16_col(&self, pos: TextSize) -> u32 {
+        let byte = self.clamp_to_char_boundary(pos);
+        let char_idx = self.rope.byte_to_char(byte);
+        let line_first_char = self.rope.line_to_char(self.rope.byte_to_line(byte));
+        let col = self.rope.char_to_utf16_cu(char_idx) - self.rope.char_to_utf16_cu(line_first_char);
+        u32::try_from(col).expect("column out of range")
+    }
+
+    /// The byte offset of the UTF-16 column `col` of `line`; a column past the end of the line means the line end.
+    pub fn utf16_pos_to_pos(&self, line: usize, col: u32) -> TextSize {
+        if line >= self.rope.len_lines() {
+            return self.line_to_pos(line);
+        }
+
+        let line_first_char = self.rope.line_to_char(line);
+        let mut line_len_chars = self.rope.line(line).len_chars();
+        // the line terminator is not part of the line
+        while line_len_chars > 0
+            && matches!(
+                self.rope.char(line_first_char + line_len_chars - 1),
+                '\n' | '\r'
+            )
+        {
+            line_len_chars -= 1;
+        }
+
+        let line_first_cu = self.rope.char_to_utf16_cu(line_first_char);
+        let line_end_cu = self.rope.char_to_utf16_cu(line_first_char + line_len_chars);
+        let cu = line_first_cu
+            .saturating_add(col as usize)
+            .min(line_end_cu);
+        let byte = self.rope.char_to_byte(self.rope.utf16_cu_to_char(cu));
+        TextSize::try_from(byte).expect("line index out of bounds")
     }
 }
